@@ -26,8 +26,8 @@ lines are swallowed by the construct's output processor (`FirstOutputTag->Proces
 expansion.
 
 `fixStruct` (self-calibrated by a probe of the binary under test): `LabelModify` also corrects the *symbol* of a structure
-field.  In the tree as it is, only `pLabelElement->Offset` is corrected; the symbol `AddStructSymbol` entered keeps the
-offset of the pad byte (finding `struct-field-symbol-keeps-pad-offset`).
+field - the tree since the repair 0cba171.  Before it only `pLabelElement->Offset` was corrected; the symbol `AddStructSymbol`
+entered kept the offset of the pad byte (repaired finding `struct-field-symbol-keeps-pad-offset`); `fixStruct = false` is that tree.
 -/
 namespace AslModel.AddrLabModel
 open AslModel.PFile (Byte b)
